@@ -334,3 +334,78 @@ Proof. exact @tiea_ln_gamma_body. Qed.
 Theorem C03_model_is_source_ln_gamma :
   forall (T : Type) (O : Ops T) (z : T), src_ln_gamma O (ln_gamma_pos O) z = ln_gamma O z.
 Proof. exact @tiea_ln_gamma. Qed.
+
+(** ** multivariate normal END TO END, composed with C11 (models: Model/MVNNew.v, Model/MVNSample.v).  [MVN::new]
+       computes the factor [sample] multiplies with by C11's model of [Matrix::cholesky] (and the inverse and determinant
+       it also caches by C01 / C11's models of [Matrix::inv] / [Matrix::det]) — the same terms that run bit for bit
+       against the crate in the end-to-end correspondence cases; no hypothesis on an inner routine is left.
+       For EVERY symmetric positive definite Sigma (flat row-major, order n; positive definite written out:
+       v^T Sigma v > 0 for every v <> 0), every random source, fuel and generator state: the constructor returns, the
+       cached factor L is lower triangular with a positive diagonal, L L^T = Sigma, L I L^T = Sigma (the covariance of the
+       affine image mu + L z of a vector z with unit covariance, as the matrix identity), and the draw IS mu + L z for
+       the vector z of standard normal draws made from the same state (and nothing else can come out); the composed
+       [sample] / [sample_n] ARE the samplers [mvn_sample] / [mvn_sample_n] of the older theorems (C03_mvn_sample_is_mu_plus_Lz,
+       C03_mvn_sample_n_shape, C03_mvn_sample_n_accepts) run with that factor L, so those apply to them too. *)
+From Compute Require Import Model.Subst Model.MVNNew Model.MVNSample Spec.Factor Spec.Solve.
+From Compute Require Proofs.C02_compose Proofs.C03_compose.
+
+Theorem C03_mvn_sample_composed :
+  forall (S : Type) (src : source S R) (fuel n : nat) (cov mu : list R),
+    (0 < n)%nat -> length cov = (n * n)%nat -> length mu = n ->
+    symmetric cov n ->
+    (forall v : nat -> R, (exists i, (i < n)%nat /\ v i <> 0) ->
+       0 < rsum (fun p => rsum (fun q => v p * getm cov n p q * v q) n) n) ->
+    exists L : list R,
+      (length L = (n * n)%nat /\ lower_triangular L n /\ (forall i, (i < n)%nat -> 0 < getm L n i i) /\
+       (forall i j, (i < n)%nat -> (j < n)%nat -> rsum (fun k => getm L n i k * getm L n j k) n = getm cov n i j) /\
+       (forall i j, (i < n)%nat -> (j < n)%nat ->
+          rsum (fun k => rsum (fun l => getm L n i k * delta k l * getm L n j l) n) n = getm cov n i j)) /\
+      (forall s : S, mvn_sample_full RO src fuel mu {| nr := n; nc := n; dat := cov |} s = mvn_sample RO src fuel mu L s) /\
+      (forall (k : nat) (s : S),
+         mvn_sample_n_full RO src fuel mu {| nr := n; nc := n; dat := cov |} k s = mvn_sample_n RO src fuel mu L k s) /\
+      (forall (s s' : S) (z : list R),
+         sample_n RO src fuel (DNormal 0 1) n s = Ok (z, s') ->
+         exists v, mvn_sample_full RO src fuel mu {| nr := n; nc := n; dat := cov |} s = Ok (v, s') /\ length v = n /\
+           forall i, (i < n)%nat -> nth i v 0 = nth i mu 0 + rsum (fun k => getm L n i k * nth k z 0) n) /\
+      (forall (s s' : S) (v : list R),
+         mvn_sample_full RO src fuel mu {| nr := n; nc := n; dat := cov |} s = Ok (v, s') ->
+         exists z, sample_n RO src fuel (DNormal 0 1) n s = Ok (z, s')).
+Proof. exact Proofs.C03_compose.mvn_sample_full_spd. Qed.
+
+Theorem C03_mvn_sample_n_shape_composed :
+  forall (S : Type) (src : source S R) (fuel n : nat) (cov mu : list R) (k : nat) (s s' : S) (m : matrix),
+    (0 < n)%nat -> length cov = (n * n)%nat -> length mu = n ->
+    symmetric cov n ->
+    (forall v : nat -> R, (exists i, (i < n)%nat /\ v i <> 0) ->
+       0 < rsum (fun p => rsum (fun q => v p * getm cov n p q * v q) n) n) ->
+    mvn_sample_n_full RO src fuel mu {| nr := n; nc := n; dat := cov |} k s = Ok (m, s') ->
+    nr m = k /\ nc m = n /\ length (dat m) = (k * n)%nat.
+Proof. exact Proofs.C03_compose.mvn_sample_n_full_spd. Qed.
+
+(** every carrier (binary64 included): the factor cached by a constructor that returned has [mean.len()] rows and columns
+    (so [sample] multiplies with exactly the matrix [mvn_sample] rebuilds from its data), it IS what [Matrix::cholesky]
+    returns on the covariance, and a constructor that panics makes [sample] / [sample_n] fail *)
+Theorem C03_mvn_new_caches_cholesky_composed :
+  forall (T : Type) (O : Ops T) (mean : list T) (c : matrix) (d : mvn T),
+    mvn_new O mean c = Some d ->
+    mvn_mean d = mean /\ mvn_cov d = c /\ Model.Cholesky.matrix_cholesky O c = Some (mvn_chol d) /\
+    Model.SolveInst.mat_inv O c = Some (mvn_cinv d) /\ Model.LU.matrix_det O c = Some (mvn_cdet d) /\
+    nr c = nc c /\ length mean = nc c.
+Proof. exact @Proofs.C02_compose.mvn_new_fields. Qed.
+Theorem C03_mvn_factor_shape_composed :
+  forall (T : Type) (O : Ops T) (mean : list T) (c : matrix) (d : mvn T),
+    mvn_new O mean c = Some d ->
+    mvn_chol d = {| nr := length (mvn_mean d); nc := length (mvn_mean d); dat := dat (mvn_chol d) |}.
+Proof. exact @Proofs.C02_compose.mvn_new_chol_shape. Qed.
+Theorem C03_mvn_sample_rejects_composed :
+  forall (T : Type) (O : Ops T) (S : Type) (src : source S T) (fuel : nat) (mean : list T) (c : matrix) (n : nat) (s : S),
+    mvn_new O mean c = None ->
+    mvn_sample_full O src fuel mean c s = Fail /\ mvn_sample_n_full O src fuel mean c n s = Fail.
+Proof. exact @Proofs.C03_compose.mvn_sample_full_rejects. Qed.
+
+(** the hypotheses are satisfiable: Sigma = [[2,1],[1,2]] *)
+Example C03_example_mvn_composed :
+  symmetric [2; 1; 1; 2] 2 /\
+  forall v : nat -> R, (exists i, (i < 2)%nat /\ v i <> 0) ->
+    0 < rsum (fun p => rsum (fun q => v p * getm [2; 1; 1; 2] 2 p q * v q) 2) 2.
+Proof. exact Proofs.C03_compose.mvn_sample_example_cov. Qed.
